@@ -17,11 +17,17 @@ EXPLANATION = (
     "element chain 0. R4 metric store: every store into the metric dict is behind a raising length guard or has "
     "cycle-level provenance. R5 cache precondition: the slice cache is only built from get_cycle_vector("
     "return_good=False, no mask), which C12.R1 proves gap-free, and the cache's own boundaries are [0] ++ (label "
-    "increments) ++ [N]. Not decided: equality of arbitrary user functions under cache on/off; the history "
+    "increments) ++ [N]. R7 sibling agreement: the label route (map_cycle_to_samples_augmented) and the slice-cache "
+    "route (augment_slice) delimit the augmented cycle by the same range and return None under the same condition. "
+    "R8: a possibly-None extent never indexes the value vectors unguarded (x[None] is the whole recording). "
+    "Not decided: equality of arbitrary user functions under cache on/off; the history "
     "quantifier beyond 'each operation preserves R4'.")
 RULE_TEXT = "one obligation per operator x literal prefix, per counter clause, per metric store, per cache clause"
-FLOORS = {'C15.R1': 18, 'C15.R2': 2, 'C15.R3': 5, 'C15.R4': 2, 'C15.R5': 3, 'C15.R6': 1}
-PINNED_EXPECT = [('C15.R5', 'emd.cycles.get_cycle_vector', 'last boundary')]
+FLOORS = {'C15.R1': 18, 'C15.R2': 2, 'C15.R3': 5, 'C15.R4': 2, 'C15.R5': 3, 'C15.R6': 1, 'C15.R7': 1, 'C15.R8': 2}
+PINNED_EXPECT = [('C15.R5', 'emd.cycles.get_cycle_vector', 'last boundary'),
+                 ('C15.R7', 'emd._cycles_support.map_cycle_to_samples_augmented', 'augmented extent'),
+                 ('C15.R8', 'emd._cycles_support.get_augmented_cycle_stat_from_samples', 'possibly-None'),
+                 ('C15.R8', 'emd._cycles_support.get_slice_stat_from_samples', 'possibly-None')]
 
 OPS = {'==': 'numpy.equal', '!=': 'numpy.not_equal', '<=': 'numpy.less_equal', '>=': 'numpy.greater_equal',
        '<': 'numpy.less', '>': 'numpy.greater'}
@@ -34,6 +40,8 @@ def run(ctx):
     rule_metric_store(ctx, 'C15.R4')
     rule_cache(ctx, 'C15.R5')
     rule_recompute(ctx, 'C15.R6')
+    rule_augmented_routes(ctx, 'C15.R7')
+    rule_none_extent(ctx, 'C15.R8')
 
 
 # ----------------------------------------------------------------------------------------------
@@ -519,3 +527,154 @@ def rule_recompute(ctx, rid):
         ctx.undecided(rid, fi, c, 'no return path')
     else:
         ctx.passed(rid, fi, c, '%d return path(s)' % n)
+
+
+# ----------------------------------------------------------------------------------------------
+# C15.R7 / R8: the two routes of the augmented-cycle metrics (slice cache on / off) are sibling implementations
+CSUP = 'emd._cycles_support.'
+
+
+def _may_return_none(P, q):
+    return any(e.kind == 'return' and e.value == NONE for e in Evaluator(P).run(P.func(q)))
+
+
+def rule_augmented_routes(ctx, rid):
+    """Cache route: augment_slice(slice(first, last+1), phase); label route: map_cycle_to_samples_augmented.  With
+    s.start := first sample of the cycle and s.stop := last sample + 1 both must describe the same index range and
+    return None under the same condition."""
+    P = ctx.P
+    alg = mk_algebra()
+    a = P.func(CSUP + 'augment_slice')
+    m = P.func(CSUP + 'map_cycle_to_samples_augmented')
+    c = 'augmented extent of a cycle is the same with and without the slice cache'
+    ae = [e for e in Evaluator(P).run(a) if e.kind == 'return']
+    me = [e for e in Evaluator(P).run(m) if e.kind == 'return']
+    ctx.paths += len(ae) + len(me)
+    inds = ('sub', ('call', 'numpy.where', (('cmp', '==', S('cycle_vect'), S('ii')),), ()), C(0))
+    first = ('sub', inds, C(0))
+    stop = ('bin', '+', ('sub', inds, C(-1)), C(1))
+    sub = {('attr', S(a.params[0]), 'start'): first, ('attr', S(a.params[0]), 'stop'): stop}
+
+    def canon_range(v):
+        """(start poly, stop poly) of slice(a, b) / np.arange(a, b), or None / 'NONE'."""
+        if v == NONE:
+            return 'NONE'
+        if v[0] == 'call' and v[1] in ('builtins.slice', 'numpy.arange') and len(v[2]) == 2:
+            return (alg.poly(v[2][0]), alg.poly(v[2][1]))
+        return None
+
+    def table(exits, subst):
+        rows = set()
+        for e in exits:
+            v = substitute(e.value, subst) if subst else e.value
+            r = canon_range(v)
+            if r is None:
+                return None, 'cannot read the returned range %s' % show(e.value)[:80]
+            conds = frozenset((alg.canon(substitute(cd, subst) if subst else cd), truth)
+                              for cd, truth, ln in e.state.conds)
+            rows.add((conds, r if r == 'NONE' else (str(r[0]), str(r[1]))))
+        return rows, None
+    ta, wa = table(ae, sub)
+    tm, wm = table(me, None)
+    if ta is None or tm is None:
+        ctx.undecided(rid, m, c, wa or wm)
+        return
+    if ta == tm:
+        ctx.passed(rid, m, c, '%d cases (None / range) agree after s.start := first sample, s.stop := last + 1' % len(ta))
+    else:
+        only_a = sorted(str(x[1]) for x in ta - tm)
+        only_m = sorted(str(x[1]) for x in tm - ta)
+        ctx.violation(rid, m, c, 'the label route and the slice-cache route delimit the augmented cycle differently, so '
+                      'metrics computed in augmented mode depend on use_cache',
+                      expected='cache route: %s' % '; '.join(only_a)[:300], found='label route: %s' % '; '.join(only_m)[:300])
+
+
+def rule_none_extent(ctx, rid):
+    """A cycle without augmented extent (None from the lookup / a None slice) gives NaN on both routes: the value
+    vector is never indexed with a possibly-None index without a guard."""
+    P = ctx.P
+    may = {q: _may_return_none(P, CSUP + q) for q in ('map_cycle_to_samples_augmented', 'augment_slice')}
+    ctx.cover['augmented_lookups_may_return_none'] = may
+    # elements of the augmented slice cache come from augment_slice (default func of make_aug_slice_cache)
+    mk = P.func(CSUP + 'make_aug_slice_cache')
+    slices_none = False
+    dflt = mk.defaults.get('func')
+    if dflt is not None and P.resolve(mk.module, dflt, mk) == CSUP + 'augment_slice':
+        slices_none = may['augment_slice']
+    for name in ('get_augmented_cycle_stat_from_samples', 'get_slice_stat_from_samples'):
+        fi = P.func(CSUP + name)
+        c = 'values are never indexed with a possibly-None extent'
+        exits = [e for e in Evaluator(P).run(fi) if e.kind == 'return']
+        ctx.paths += len(exits)
+        bad = None
+        nsub = 0
+
+        def maybe_none(idx, binders):
+            if idx[0] == 'call' and idx[1] == CSUP + 'map_cycle_to_samples_augmented':
+                return may['map_cycle_to_samples_augmented']
+            if name == 'get_slice_stat_from_samples' and slices_none and idx in binders:
+                return True
+            return False
+
+        def walk(t, guards, binders):
+            nonlocal bad, nsub
+            if not isinstance(t, tuple) or not t or not isinstance(t[0], str):
+                return
+            if t[0] == 'ifexp':
+                walk(t[1], guards, binders)
+                walk(t[2], guards | {(t[1], True)}, binders)
+                walk(t[3], guards | {(t[1], False)}, binders)
+                return
+            if t[0] == 'comp':
+                b2 = set(binders)
+                for var, it, conds in t[3]:
+                    if it == S('slices'):
+                        b2.add(var)
+                    if it[0] == 'call' and it[1] == 'builtins.enumerate' and it[2] == (S('slices'),) \
+                            and var[0] == 'tuple' and len(var[1]) == 2:
+                        b2.add(var[1][1])
+                    walk(it, guards, binders)
+                walk(t[2], guards, b2)
+                return
+            if t[0] == 'sub' and maybe_none(t[2], binders):
+                nsub += 1
+                ok = any((g[0] == 'cmp' and g[2] == t[2] and g[3] == NONE and
+                          ((g[1] == 'isnot') == tr)) for g, tr in guards)
+                if not ok and bad is None:
+                    bad = 'the values are indexed with %s, which is None for a cycle without augmented extent: ' \
+                          'x[None] is the whole recording with a new axis, so the function sees every sample' \
+                          % show(t[2])[:60]
+            for x in t[1:]:
+                if isinstance(x, tuple):
+                    if x and isinstance(x[0], str):
+                        walk(x, guards, binders)
+                    else:
+                        for y in x:
+                            if isinstance(y, tuple):
+                                if y and isinstance(y[0], str):
+                                    walk(y, guards, binders)
+                                else:
+                                    for z in y:
+                                        walk(z, guards, binders)
+        for e in exits:
+            walk(e.value, frozenset(), set())
+            for ls in e.state.loops:
+                if ls.kind != 'for':
+                    continue
+                binders = set()
+                if ls.iter_term == S('slices'):
+                    binders.add(ls.var)
+                if ls.iter_term[0] == 'call' and ls.iter_term[1] == 'builtins.enumerate' \
+                        and ls.iter_term[2] == (S('slices'),) and ls.var[0] == 'tuple' and len(ls.var[1]) == 2:
+                    binders.add(ls.var[1][1])
+                for kind, b in ls.body_states:
+                    guards = frozenset((cd, truth) for cd, truth, ln in b.conds)
+                    for eff in b.effects:
+                        if eff[0] == 'setitem':
+                            walk(eff[3], guards, binders)
+        if bad:
+            ctx.violation(rid, fi, c, bad)
+        elif nsub == 0:
+            ctx.undecided(rid, fi, c, 'no indexing by a per-cycle extent found')
+        else:
+            ctx.passed(rid, fi, c, '%d guarded indexing site state(s)' % nsub)
